@@ -35,6 +35,13 @@ long long ofv_get_i(const char *name, long i)
 	return ofv_get(key);
 }
 
+long long ofv_get_ij(const char *name, long i, long j)
+{
+	char key[300];
+	snprintf(key, sizeof key, "%s[%ld][%ld]", name, i, j);
+	return ofv_get(key);
+}
+
 void *ofv_exact_alloc(size_t n)
 {
 	void *p = malloc(n);	/* exact size: ASan red zones start right after byte n-1 */
